@@ -152,7 +152,9 @@ def run_case(case):
                 continue
             src = op["src"]
             kind = src["kind"]
-            if src.get("vtype") in ("tuple", "list2", "cells", "mixed", "dict", "set", "bytes", "nonebool") and kind not in ("const", "callable", "list"):
+            if kind == "lookup" and src.get("vtype") in ("tuple", "list2", "dict", "mixed", "nonebool"):
+                src = dict(src, numpy=False)        # composite table entries: a nested-list table (an array would grow a dimension)
+            elif src.get("vtype") in ("tuple", "list2", "cells", "mixed", "dict", "set", "bytes", "nonebool") and kind not in ("const", "callable", "list"):
                 src = dict(src, vtype="int")        # sequence-valued / mixed cells only through generators and plain lists
             if kind == "list" and src.get("vtype") == "cells":
                 src = dict(src, vtype="tuple")
@@ -282,7 +284,9 @@ def run_case(case):
             labels.add("remove-unknown")
         else:
             raise InvalidCase(op)
-        verify(where)
+        look = ("every", "every", "sparse", "end")[len(case["ops"]) % 4]      # how often the table is inspected between operations
+        if look == "every" or (look == "sparse" and k % 3 == 2) or k == len(case["ops"]) - 1:
+            verify(where)
         if world2 is not None and (list(world2.cells.columns) != ["pos", NAMES[0]] or list(world2.cells[NAMES[0]]) != [10, 11, 12, 13, 14, 15]):
             raise Violation("other-world-disturbed", f"{where}: a second world holding {NAMES[0]!r} = 10..15 now has columns "
                                                      f"{list(world2.cells.columns)} / values {list(world2.cells.get(NAMES[0], []))}")
